@@ -1,0 +1,30 @@
+//go:build verif
+
+// Contracts for package revocation, checked by /verif/govc (comment-only; not part of any normal build).
+
+package revocation
+
+// ---- C11: status list bit strings (machine integers: 64-bit vectors, exact) ----
+
+//@ func isSet
+//@   prop C11 C19
+//@   pure
+//@   safety
+//@   requires r <= 7
+//@   ensures result == ((b >> (7 - r)) & 1 == 1)
+
+//@ func (*bitstring).bit
+//@   prop C11 C19
+//@   safety
+//@   modifies nothing
+//@   ensures [error-iff-out-of-range] (statusListIndex < 0 || statusListIndex/8 >= len(*bs)) <==> !isNilIface(result.1)
+//@   ensures [value-is-that-bit] isNilIface(result.1) ==> result.0 == (((*bs)[statusListIndex/8] >> (7 - uint8(statusListIndex%8))) & 1 == 1)
+
+//@ func (*bitstring).setBit
+//@   prop C11 C19
+//@   safety
+//@   ensures [error-iff-out-of-range] (statusListIndex < 0 || statusListIndex/8 >= len(*bs)) <==> !isNilIface(result)
+//@   ensures [bit-has-value] isNilIface(result) ==> ((((*bs)[statusListIndex/8] >> (7 - uint8(statusListIndex%8))) & 1 == 1) == value)
+//@   ensures [other-bits-unchanged] forall j int :: 0 <= j && j/8 < len(*bs) && j != statusListIndex ==>
+//@           ((((*bs)[j/8] >> (7 - uint8(j%8))) & 1) == ((old((*bs)[j/8]) >> (7 - uint8(j%8))) & 1))
+//@   ensures [same-slice] len(*bs) == old(len(*bs))
